@@ -2,6 +2,21 @@ import FindVerif.Driver.Props
 
 open FV
 
+/-- Panics are compared by stage only: `… PANIC <stage> <message>` ↦ `… PANIC <stage>`. -/
+def normPanic (obs : String) : String :=
+  let rec go : List String → List String
+    | "PANIC" :: stage :: _ => ["PANIC", stage]
+    | x :: xs => x :: go xs
+    | [] => []
+  " ".intercalate (go (obs.splitOn " "))
+
+/-- The part of an observation that a property's correspondence compares (so that a defect or
+    rewrite elsewhere does not break a property it has nothing to do with). -/
+def projectObs (prop : String) (req : List String) (obs : String) : String :=
+  match prop, req with
+  | "C19", "T" :: _ => (splitBar obs).1
+  | _, _ => obs
+
 /-- One line `request TAB profile observation` ↦ verdict line. -/
 def handleLine (prop : String) (line : String) : String :=
   match line.splitOn "\t" with
@@ -12,9 +27,13 @@ def handleLine (prop : String) (line : String) : String :=
     let pf := profileOf pfS
     let reqParts := req.splitOn " "
     let reqCore := reqParts.filter (fun p => !p.startsWith "#")
+    let obs := normPanic obs
     let diff : Option String := match modelObs pf reqCore obs with
       | .skip why => some ("SKIP " ++ why)
-      | .obs m => if m = obs then none else some s!"DIFF impl=[{obs}] model=[{m}]"
+      | .obs m =>
+        let a := projectObs prop reqCore obs
+        let b := projectObs prop reqCore (normPanic m)
+        if a = b then none else some s!"DIFF impl=[{a}] model=[{b}]"
     match propCheck prop reqParts obs, diff with
     | some why, some d => s!"PFAIL {prop} {why} ;; {d}"
     | some why, none => s!"PFAIL {prop} {why}"
